@@ -74,9 +74,17 @@ func vxBuild10(upTo string) *scipipe.Workflow {
 	merge.In("a").From(tag1.Out())
 	merge.In("b").From(tag2.Out())
 	merge.InParam("p").FromStr("7")
-	fin := wf.NewProc("fin", "vcmd r:{i:in} w:{o:out}")
+	finPat := "vcmd r:{i:in} w:{o:out}"
+	if vxGet("diamond") == 1 {
+		// both outputs of merge feed fin: the merge record reaches f.txt along two paths
+		finPat = "vcmd r:{i:in} r:{i:in2} w:{o:out}"
+	}
+	fin := wf.NewProc("fin", finPat)
 	fin.SetOut("out", vxFinPath())
 	fin.In("in").From(merge.Out("out"))
+	if vxGet("diamond") == 1 {
+		fin.In("in2").From(merge.Out("side"))
+	}
 	return wf
 }
 
@@ -112,9 +120,24 @@ func vxExecuted(cmd string) bool {
 	return false
 }
 
+func vxHasAll(s string, parts ...string) bool {
+	for _, p := range parts {
+		if !strings.Contains(s, p) {
+			return false
+		}
+	}
+	return true
+}
+
 func vxCheckMergeRecord(r *scipipe.AuditInfo, id string) {
 	vxAssert(r.ProcessName == "merge", id+".process-name")
-	vxAssert(r.Command == vxMergeCmd(), id+".command")
+	// the exact command that was executed (not a particular spelling of it): the record's
+	// text was handed to the shell, and it names everything the pattern says
+	okCmd := vxExecuted(r.Command) && vxHasAll(r.Command, "vcmd ", "in1.txt", "in2.txt", "m.txt", "side.txt", "# 7")
+	if vxGet("prepend") == 1 {
+		okCmd = okCmd && strings.HasPrefix(r.Command, "vcmd x:pre.txt &&")
+	}
+	vxAssert(okCmd, id+".command")
 	vxAssert(len(r.Params) == 1 && r.Params["p"] == "7", id+".params")
 	vxAssert(len(r.OutFiles) == 2 && r.OutFiles["out"] == "m.txt" && r.OutFiles["side"] == "side.txt", id+".outfiles")
 	vxAssert(r.Tags["k1"] == "v1" && r.Tags["k2"] == "v2", id+".upstream-tags-present")
@@ -152,11 +175,19 @@ func VxH10() {
 	vxCheckMergeRecord(m, "C10.merge")
 	vxAssert(vxSameRecord(m, side, true), "C10.same-record-next-to-every-output")
 	vxAssert(f.ProcessName == "fin", "C10.fin.process-name")
-	wantFin := map[int]string{0: "vcmd r:../m.txt w:f.txt", 1: "vcmd r:../m.txt w:__parent__up/f.txt", 2: "vcmd r:../m.txt w:__fsroot__/abs/d/f.txt"}[vxGet("shape")]
-	vxAssert(f.Command == wantFin, "C10.fin.command")
+	vxAssert(vxExecuted(f.Command) && vxHasAll(f.Command, "vcmd ", "m.txt", "f.txt"), "C10.fin.command")
 	vxAssert(f.Tags["k1"] == "v1" && f.Tags["k2"] == "v2", "C10.fin.upstream-tags-present")
 	vxAssert(vxNot(f.FinishTime.Before(f.StartTime)), "C10.fin.start-before-finish")
-	vxAssert(len(f.Upstream) == 1 && f.Upstream["m.txt"] != nil, "C10.fin.upstream-keys")
+	if vxGet("diamond") == 1 {
+		vxAssert(len(f.Upstream) == 2 && f.Upstream["m.txt"] != nil && f.Upstream["side.txt"] != nil, "C10.fin.upstream-keys")
+		if f.Upstream["side.txt"] != nil {
+			// the same ancestor reached along a second path is embedded in full again
+			vxAssert(vxSameRecord(f.Upstream["side.txt"], side, true), "C10.fin.upstream-is-the-producers-record")
+			vxCheckMergeRecord(f.Upstream["side.txt"], "C10.fin.upstream2")
+		}
+	} else {
+		vxAssert(len(f.Upstream) == 1 && f.Upstream["m.txt"] != nil, "C10.fin.upstream-keys")
+	}
 	if f.Upstream["m.txt"] != nil {
 		// the full record of the input, identical to the one on disk, recursively
 		vxAssert(vxSameRecord(f.Upstream["m.txt"], m, true), "C10.fin.upstream-is-the-producers-record")
@@ -264,7 +295,7 @@ func VxH11() {
 		}
 	}
 	// same lineage as an uninterrupted run (IDs and times of re-executed tasks aside)
-	vxAssert(f.ProcessName == "fin" && f.Command == "vcmd r:../m.txt w:f.txt", "C11.new-record-faithful")
+	vxAssert(f.ProcessName == "fin" && vxExecuted(f.Command) && vxHasAll(f.Command, "vcmd ", "m.txt", "f.txt"), "C11.new-record-faithful")
 	vxAssert(len(f.Upstream) == 1 && f.Upstream["m.txt"] != nil, "C11.lineage-present")
 	if f.Upstream["m.txt"] != nil {
 		vxCheckMergeRecord(f.Upstream["m.txt"], "C11.lineage")
